@@ -17,6 +17,7 @@ from contracts.common import *  # noqa
 from contracts import common
 from pyvc import driver, frames
 from contracts.c18 import unit_emit_report  # noqa
+from contracts.insn import unit_rm_encode  # noqa
 
 ID = "C17"
 EXPLANATION = "syntactic obligations over all 120 report sites + exhaustive small-scope check of the line/column arithmetic; the culprit relation itself is tested, not proved"
@@ -175,6 +176,9 @@ FAULTS = [
     ("mov r0   «,» ]", "invalid-operand"), ("mov r0 ; c\n\t  «,» ; d\n]", "invalid-operand"), ("1, 2 \t«,» ]", "invalid-operand"), (".word 1 + «»)", "invalid-insn"),
     (".ascii «\"abc»", "unterminated-string", "bk", "start-only"), ("x «=» ]", "invalid-assignment"), (".rad50 \"a\" «<50>»", "value-out-of-bounds"), ("«.error ;abcdef»", "user-error"),
     ("«.error  oops   ; why»", "user-error"),
+    # index expressions that the operand encoder regroups ('-x(r0)' becomes '(-x)(r0)'): the regrouped token keeps the span of what was written
+    ("big = 200000\n mov «-big»(r0), r1", "value-out-of-bounds"), ("mov «#4»(r0), r1", "unexpected-value"), ("big = 200000\nmov «big+1»(r0), r1", "value-out-of-bounds"),
+    ("big = 200000\nmov @«-big»(r0), r1", "value-out-of-bounds"), ("mov «~<200000>»(r2), r1", "value-out-of-bounds"),
     # text with decomposed letters (base letter + combining mark, as macOS tools store them) on the culprit's own line: positions are
     # positions in the file's text as it is on disk
     (".ascii \"\u0438\u0306o\u0308\" <«undefined_sym»>", "undefined-symbol", "utf-8"), (".asciz /e\u0301 \u0418\u0306/ <«undefined_sym»>", "undefined-symbol", "utf-8"),
@@ -301,6 +305,9 @@ def units(tier):
     # the report machinery hands the parts of a diagnostic to the handler unchanged and in order (the culprit is the first part)
     for p in ("error", "critical", "warning"):
         us.append(("emit_report[%s]" % p, "unit_emit_report", dict(prio=p, latched=False)))
+    # tokens that the operand encoder builds itself (regrouped index expressions) keep the span of the text that was written
+    for sh in ("a+b(Rn)", "a-b(Rn)", "@a+b(Rn)", "-a(Rn)"):
+        us.append(("rm[%s]" % sh, "unit_rm_encode", dict(shape=sh, lazy=False)))
     return us
 
 
